@@ -102,7 +102,7 @@ class Ctx:
                 violations.append(inst)
         for inst, e in known_hits:
             print("KNOWN-FINDING: property=%s %s %s — %s" % (self.prop, inst["rule"], inst["key"], e.get("what", inst["what"])))
-        vdir = os.path.join(VERIF, "violations", self.prop)
+        vdir = os.path.join(VERIF if not os.environ.get("VERIF_NO_EVIDENCE") else extract.CACHE, "violations", self.prop)
         if os.path.isdir(vdir):
             for f in os.listdir(vdir):
                 try:
@@ -165,8 +165,12 @@ class Ctx:
             "wall_s": round(time.time() - self.t0, 2),
             "violations": n_viol,
         }
-        os.makedirs(os.path.join(VERIF, "evidence"), exist_ok=True)
-        path = os.path.join(VERIF, "evidence", self.prop + ".json")
+        evdir = os.path.join(VERIF, "evidence")
+        if os.environ.get("VERIF_NO_EVIDENCE"):
+            # self-test runs against scratch copies must not overwrite the evidence of the real tree
+            evdir = os.path.join(extract.CACHE, "evidence")
+        os.makedirs(evdir, exist_ok=True)
+        path = os.path.join(evdir, self.prop + ".json")
         tmp = path + ".tmp"
         with open(tmp, "w") as fh:
             json.dump(ev, fh, indent=1)
